@@ -2,6 +2,7 @@
 package c09sig
 
 import (
+	"encoding/hex"
 	"encoding/json"
 	"fmt"
 	"reflect"
@@ -25,6 +26,21 @@ type Case struct {
 	Kind string `json:"kind"` // grammar | arbitrary
 	Sig  string `json:"sig"`
 	Edit string `json:"edit,omitempty"`
+	// SigHex carries an arbitrary byte string (not necessarily UTF-8); when
+	// present it replaces Sig.
+	SigHex string `json:"sig_hex,omitempty"`
+	// Sibling (grammar cases): the same signature with one scalar leaf changed,
+	// all names kept. It is parsed before and after Sig: whatever the parser
+	// remembers from one signature must not leak into the next.
+	Sibling string `json:"sibling,omitempty"`
+}
+
+func (c Case) sig() string {
+	if c.SigHex != "" {
+		b, _ := hex.DecodeString(c.SigHex)
+		return string(b)
+	}
+	return c.Sig
 }
 
 var allLeaves = []ref.Kind{ref.KInt8, ref.KUint8, ref.KInt16, ref.KUint16, ref.KInt32, ref.KUint32, ref.KInt64, ref.KUint64,
@@ -35,9 +51,32 @@ func typeOpts() gen.TypeOpts {
 		Maps: true, Lists: true, Template: true, ZeroMem: true, CompositeKeys: true}
 }
 
+var siblingKinds = []ref.Kind{ref.KInt8, ref.KUint16, ref.KInt32, ref.KUint64, ref.KFloat32, ref.KBool, ref.KString}
+
 func genGrammar(t *rapid.T) Case {
 	ty := gen.DrawType(t, typeOpts())
-	return Case{Kind: "grammar", Sig: ty.Sig()}
+	c := Case{Kind: "grammar", Sig: ty.Sig()}
+	// a sibling: one scalar leaf of a fresh copy of the type gets another kind
+	cp, err := ref.ParseSig(c.Sig)
+	if err != nil {
+		return c
+	}
+	var leaves []*ref.Type
+	cp.Walk(func(n *ref.Type) {
+		if n.IsScalar() && n.Kind != ref.KVoid {
+			leaves = append(leaves, n)
+		}
+	})
+	if len(leaves) > 0 && rapid.IntRange(0, 2).Draw(t, "sibling") > 0 {
+		n := leaves[rapid.IntRange(0, len(leaves)-1).Draw(t, "leaf")]
+		k := rapid.SampledFrom(siblingKinds).Draw(t, "newkind")
+		if k == n.Kind {
+			k = ref.KInt64
+		}
+		n.Kind = k
+		c.Sibling = cp.Sig()
+	}
+	return c
 }
 
 var alphabet = []rune("cCwWiIlLfdbsmoXvr[]{}()<>,,  \t\nAZaz09_é\x00")
@@ -61,7 +100,14 @@ func capParens(s string) string {
 
 func genArbitrary(t *rapid.T) Case {
 	c := Case{Kind: "arbitrary"}
-	switch rapid.IntRange(0, 2).Draw(t, "akind") {
+	switch rapid.IntRange(0, 3).Draw(t, "akind") {
+	case 3:
+		// raw bytes, not necessarily UTF-8, mostly very short
+		n := rapid.SampledFrom([]int{1, 1, 1, 2, 3, 6}).Draw(t, "nbytes")
+		b := rapid.SliceOfN(rapid.Byte(), n, n).Draw(t, "bytes")
+		c.SigHex = hex.EncodeToString(b)
+		c.Edit = "bytes"
+		return c
 	case 0:
 		c.Sig = rapid.StringOfN(rapid.SampledFrom(alphabet), 0, 24, -1).Draw(t, "str")
 		c.Edit = "random"
@@ -174,6 +220,19 @@ func checkCase(c Case) error {
 }
 
 func checkGrammar(c Case) error {
+	if c.Sibling != "" {
+		for _, sg := range []string{c.Sibling, c.Sig, c.Sibling} {
+			if err := checkOne(Case{Kind: c.Kind, Sig: sg}, sg == c.Sig); err != nil {
+				return err
+			}
+		}
+		vt.Label("with-sibling")
+		return nil
+	}
+	return checkOne(c, true)
+}
+
+func checkOne(c Case, count bool) error {
 	rt, err := ref.ParseSig(c.Sig)
 	if err != nil {
 		return vt.Violationf("C09:bad-case", "reference parser rejects generated signature %q: %v", c.Sig, err)
@@ -212,6 +271,9 @@ func checkGrammar(c Case) error {
 	if strings.Contains(c.Sig, "()") {
 		labels = append(labels, "zero-members")
 	}
+	if !count {
+		return nil
+	}
 	vt.Case(nontrivial, c.Sig, labels...)
 	if nontrivial {
 		vt.Sample("grammar", c.Sig)
@@ -220,6 +282,7 @@ func checkGrammar(c Case) error {
 }
 
 func checkArbitrary(c Case) error {
+	c.Sig = c.sig()
 	ty, err, p := parse(c.Sig)
 	if p != nil {
 		return vt.Violationf("C09:parse-panic", "Parse(%q) panicked: %v", c.Sig, p)
